@@ -439,10 +439,12 @@ class _LocalSendRecvDepGatherer(
             from pytato.distributed.verify import DuplicateSendError
             raise DuplicateSendError(f"Multiple sends found for '{send_id}'")
 
+        # Register the send before descending into its payload, so that a
+        # duplicate of this send nested inside the payload is diagnosed.
+        self.local_send_id_to_send_node[send_id] = expr.send
+
         self.local_comm_ids_to_needed_comm_ids[send_id] = \
                 self.rec(expr.send.data)
-
-        self.local_send_id_to_send_node[send_id] = expr.send
 
         return self.rec(expr.passthrough_data)
 
